@@ -78,6 +78,7 @@ struct ctx {                 /* one interpreter (one per thread in thread mode) 
   char dbuf[512], cbuf[512]; /* the caller's own buffers for the delimiter and comment sets: REUSED for every reading call, as an
                                 application that keeps them in a struct or on its stack does (same address, other content) */
   int cb_yield;              /* scheduled thread mode: the callback hands the turn over and waits for its next slot */
+  char *cb_read_path;        /* the callback itself reads this file with the library (an allow-list, say) before it answers */
 };
 
 static struct ctx main_ctx;
@@ -184,6 +185,9 @@ static bool the_callback(const char *filename, const void *data) {
     while (sched_pos < sched_len && sched[sched_pos] != c->tid) pthread_cond_wait(&sched_cv, &sched_mu);
     pthread_mutex_unlock(&sched_mu);
   }
+  if (c->cb_read_path) {          /* a nested, successful read of another file: nothing of the outer call may depend on it */
+    econf_file *inner = NULL; econf_err ie = econf_readFile(&inner, c->cb_read_path, "=", "#"); (void)ie; econf_freeFile(inner);
+  }
   bool verdict = true;
   if (c->cb_calls <= 64 && (c->cb_reject_mask >> (c->cb_calls - 1) & 1)) verdict = false;
   if (c->cb_reject_path && samepath(c->cb_reject_path, filename)) verdict = false;
@@ -215,6 +219,7 @@ static void cb_clearlog(struct ctx *c) {
 static void cb_reset(struct ctx *c) {
   cb_clearlog(c);
   c->cb_reject_mask = 0; free(c->cb_reject_path); c->cb_reject_path = NULL;
+  free(c->cb_read_path); c->cb_read_path = NULL;
   for (int i = 0; i < c->cb_nlate; i++) { free(c->cb_late_path[i]); free(c->cb_late_data[i]); }
   c->cb_nlate = 0;
   for (int i = 0; i < c->cb_ndel; i++) { free(c->cb_del_trigger[i]); free(c->cb_del_victim[i]); }
@@ -358,6 +363,7 @@ static int run_cmd(struct ctx *c, char **t, int nt) {
     fprintf(o, "{\"op\":\"statlen\",\"len\":%ld}\n", n); free(p); return 0; }
 
   /* ----- callback configuration ----- */
+  if (!strcmp(op, "cbread")) { free(c->cb_read_path); c->cb_read_path = tokstr(ARG(1), NULL); return 0; }
   if (!strcmp(op, "cbreset")) { cb_reset(c); return 0; }
   if (!strcmp(op, "cbrejectk")) { c->cb_reject_mask = strtoull(ARG(1), NULL, 10); return 0; }
   if (!strcmp(op, "cbrejectpath")) { free(c->cb_reject_path); c->cb_reject_path = tokstr(ARG(1), NULL); return 0; }
